@@ -165,6 +165,12 @@ pub fn child(k: usize, outdir: &str, seed: u64, thorough: bool) -> serde_json::V
         match catch_unwind(AssertUnwindSafe(|| rel.clone().rewrite_with_differential_privacy(&w.relations, Some(w.synthetic.clone()), w.privacy_unit.clone(), p.clone()))) {
             Ok(Ok(rw)) => { st.bump("dp_rewritten"); if catch_unwind(AssertUnwindSafe(|| { let _ = render(rw.relation()); let _ = rw.dp_event().to_string(); })).is_err() { fail(&mut st, "render of the DP rewriting"); } }
             Ok(Err(_)) => st.bump("dp_error_value"), Err(_) => fail(&mut st, "DP rewriting") }
+        // synthetic data declared for one of the two tables only, or for none
+        if i % 3 == 0 {
+            let sd = match r.below(3) { 0 => Some(SyntheticData::new(Hierarchy::from([(vec!["other"], Identifier::from("sd_other"))]))), 1 => Some(SyntheticData::new(Hierarchy::from([(vec!["nums"], Identifier::from("sd_nums"))]))), _ => None };
+            match catch_unwind(AssertUnwindSafe(|| rel.clone().rewrite_with_differential_privacy(&w.relations, sd.clone(), w.privacy_unit.clone(), p.clone()))) {
+                Ok(Ok(_)) => st.bump("dp_rewritten_partial_synthetic_data"), Ok(Err(_)) => st.bump("dp_error_value_partial_synthetic_data"), Err(_) => fail(&mut st, "DP rewriting with partial synthetic data") }
+        }
         if i < 1 && k == 0 { st.sample(json!({"query":sql,"schema_variant":variant})); }
     }
     st.to_child_json(RULE)
